@@ -343,7 +343,7 @@ func (g *gen) iterOp(via string, slot int, maxMoves int) Op {
 
 func (g *gen) txOp() Op {
 	r := g.r
-	op := Op{K: "tx", Commit: r.p(0.7)}
+	op := Op{K: "tx", Commit: r.p(0.7), Ms: r.pick(0, 0, 0, 1500, 6000)}
 	n := r.rng(1, 12)
 	big := r.p(0.25)
 	kept := false
@@ -853,6 +853,20 @@ func GenCase(prop string, seed uint64, thorough bool) *Case {
 	switch c.Scenario {
 	case "crash":
 		g.crashPlan(c)
+		if prop == "C04" && g.bigKeys == 0 && r.p(0.08) {
+			// failed commits before the crash: manifest syncs fail for a
+			// while (the records are written all the same), transactions are
+			// committed in vain and discarded, and then the power goes
+			c.Faults = append(c.Faults, &simdisk.Fault{Kind: "err", Op: simdisk.OpSync, FT: int(storage.TypeManifest), Nth: r.rng(2, 10), Count: r.rng(4, 14), Epoch: 0})
+			ops := c.Clients[0]
+			for i := r.rng(2, 4); i > 0; i-- {
+				at := r.intn(len(ops) + 1)
+				tx := g.txOp()
+				tx.Commit = true
+				ops = append(ops[:at:at], append([]Op{tx}, ops[at:]...)...)
+			}
+			c.Clients[0] = ops
+		}
 		if g.bigKeys > 0 {
 			// tear the (multi-chunk) manifest records
 			for _, f := range c.Faults {
